@@ -6,6 +6,7 @@
 package crashx
 
 import (
+	"bytes"
 	"context"
 	"fmt"
 	"sort"
@@ -107,8 +108,8 @@ func Explore(r *vh.Run, t *testing.T, sc Scenario, bound int, seen map[string]bo
 			seen[key] = true
 			nt := len(s) != len(sc.Base)
 			if !nt {
-				for k := range s {
-					if _, ok := sc.Base[k]; !ok {
+				for k, v := range s {
+					if bv, ok := sc.Base[k]; !ok || (k.Name == "" && !bytes.Equal(bv, v)) {
 						nt = true
 						break
 					}
